@@ -186,7 +186,13 @@ func (w *ckWorld) state(ctx sdk.Context) string {
 	var rs []string
 	for k := range w.Keys {
 		if o := w.RevOp(ctx, k); o >= 0 {
-			rs = append(rs, fmt.Sprintf("%d:%d", k, o))
+			// third field: the jail status the slashing / evidence modules are given for this
+			// consensus address (impl_sdk.go: IsValidatorJailed -> IsOperatorJailedForChainID)
+			j := 0
+			if sk.IsValidatorJailed(ctx, w.Keys[k].ToConsAddr()) {
+				j = 1
+			}
+			rs = append(rs, fmt.Sprintf("%d:%d:%d", k, o, j))
 		}
 	}
 	var qs []string
@@ -272,6 +278,11 @@ func (w *ckWorld) monitors(ctx sdk.Context, phase string, pfx string) {
 			w.viol("C07.slashable", pfx+"valset-unresolvable", fmt.Sprintf("validator key %d cannot be resolved to an operator", k), w.hist)
 		}
 	}
+	// ---- C07: a resolvable address reports its operator's jail status (current, replaced and
+	// removing keys alike): that is what "can still be slashed and jailed" rests on - the slashing
+	// module skips a jailed validator's signatures, does not slash / jail it twice for downtime
+	// and only unjails what is reported as jailed
+	w.jailViewMonitor(ctx, pfx)
 	// ---- C07 + C16: tracked entries (a key that left the set stays resolvable until its slot
 	// ends and is pruned then; queue entries sit in their slot, move to pending in the closing
 	// block, and are gone afterwards)
@@ -582,6 +593,7 @@ func domConsKeys(env *Env) error {
 	if env.Int("oldkeyslash", 0) == 1 {
 		scenarioOldKeySlash(env)
 	}
+	scenarioJailCycle(env)
 	for hi := 0; hi < n; hi++ {
 		cfg := DefaultCfg(env.Report.Seed*1000 + uint64(hi))
 		nGen := rng.Range(1, 3)
@@ -647,6 +659,14 @@ func domConsKeys(env *Env) error {
 				b := 0
 				if rng.Bool() {
 					b = 1
+				}
+				if b == 0 && rng.Bool() { // the way an operator gets out: MsgUnjail of x/slashing
+					uo := op
+					if o := w.RevOp(c.Ctx, key); o >= 0 && rng.Chance(3, 4) {
+						uo = o
+					}
+					env.Outcome("unjailmsg=" + w.doUnjailMsg(uo))
+					break
 				}
 				if b == 1 {
 					c.App.StakingKeeper.Jail(c.Ctx, w.Keys[key].ToConsAddr())
